@@ -328,6 +328,16 @@ def gen_nest(rng, i):
         act0['f'] = formgen.g3_tree(rng, env1, rng.choice([1, 2, 3]))
     env0 = _env(slots[outer_slot], set(), False)
     outer = _site_formula(rng, env0, trig0)
+    # a nested result that reaches a magnitude-sensitive function as a variable / cell value could stall one C call:
+    # listener sites get inner formulas that cannot evaluate to huge numbers
+    for site in sites:
+        if site['kind'] != 'fn':
+            act = _site_action(slots, site)
+            tries = 0
+            while formgen.magnifies(act['f']) and tries < 20 and 'NEST' not in act['f'] and not any(t in act['f'] for t in ('nv_',)):
+                env_ = _env(slots[act['slot']] if 'slot' in act else {'variables': {}, 'functions': {}, 'listeners': {}}, deny, 'slot' not in act)
+                act['f'] = formgen.g3_tree(rng, env_, 1)
+                tries += 1
     return {'engine': 'nest', 'slots': slots, 'outer': [outer_slot, outer], 'sites': sites, 'clock': CLOCK0,
             'rand': rng.choice([0.0, 0.25, 0.75]), 'modes': [mode0] + ([mode1] if trig1 is not None else [])}
 
